@@ -327,6 +327,10 @@ func cmdCheck(args []string) {
 			if k := isKnown(ob.Name); k != nil {
 				fmt.Printf("KNOWN-FINDING: property=%s %s %s\n", id, ob.Name, k.What)
 				knownPrinted = append(knownPrinted, ob.Name)
+				// a recorded finding is reported, not claimed: it is listed under known_findings and is not part of
+				// the obligations this run claims to have discharged
+				total--
+				unproved--
 				continue
 			}
 			concrete := false
